@@ -441,9 +441,13 @@ func (d *HeaderFooterDetector) findRepeatingPatterns(candidates []candidate, pag
 			continue
 		}
 
-		// Check position consistency
+		// Check position consistency. Page numbers printed in the outer margin
+		// alternate between the left and the right side of the page, so for a
+		// pure page-number pattern only the vertical position has to agree.
 		if !d.hasConsistentPosition(group) {
-			continue
+			if !isPageNumberPattern(normalizedText) || !d.hasConsistentY(group) {
+				continue
+			}
 		}
 
 		// Calculate bounding box and confidence
@@ -506,6 +510,19 @@ func (d *HeaderFooterDetector) hasConsistentPosition(group []candidate) bool {
 		}
 	}
 
+	return true
+}
+
+// hasConsistentY checks if candidates appear at a consistent vertical position
+func (d *HeaderFooterDetector) hasConsistentY(group []candidate) bool {
+	if len(group) < 2 {
+		return false
+	}
+	for _, c := range group[1:] {
+		if absFloat(c.Y-group[0].Y) > d.config.PositionTolerance {
+			return false
+		}
+	}
 	return true
 }
 
